@@ -1,4 +1,5 @@
 """C13 - Each registered system owns one persistent, private system state (DESIGN.md section 4, C13)."""
+import re
 import mir
 from mir import op_fn, op_place, origins
 import lib
@@ -17,7 +18,7 @@ EXPLANATION = (
 NOT_DECIDED = ["that Bevy's System keeps Locals across run_unsafe calls (trusted)"]
 
 
-def _check_rwc(ctx, prog, m, depth=0):
+def _check_rwc(ctx, prog, m, depth=0, require_init=True):
     """C13.b for one run_with_cleanup function. If the taken state is matched inside a crate-local callee (e.g. an
     extraction helper such as `take_initialized`), the callee is inlined at that call site and the rule is evaluated on
     the inlined body: inlining preserves semantics, so the rule holds for the program if it holds there."""
@@ -50,15 +51,21 @@ def _check_rwc(ctx, prog, m, depth=0):
                     m2 = inline.inline_at(prog, m, b)
                     if m2 is not None:
                         ctx.notes.append("C13.b: %s matches the taken state inside %s; evaluated on the body with that call inlined" % (fk, lib.tail(mir.fn_name(fr), 2)))
-                        return _check_rwc(ctx, prog, m2, depth + 1)
+                        return _check_rwc(ctx, prog, m2, depth + 1, require_init)
         ctx.fail("C13.b", "%s:anchor-lost:state-match" % fk, m.loc(tb), "taken state is not matched")
         return
     arms, ow, adt = lib.enum_arms(m, prog, sw[0])
+    if ow is not None and not m.is_unreachable_block(ow):
+        # `let Enum::New(x) = taken else { .. }` / a catch-all arm: the variants without an arm of their own go there
+        arms = dict(arms)
+        for v in ("Empty", "New", "Initialized"):
+            arms.setdefault(v, ow)
     inits = [b for b, t, fr in m.iter_calls() if fr and lib.tail(mir.fn_name(fr), 2) == "System::initialize"]
     for b in inits:
         ctx.check("New" in arms and m.dominates(arms["New"], b), "C13.b", "%s:initialize-only-on-New" % fk, m.loc(b),
                   "initialize is on the New arm", "System::initialize is called outside the New arm (an initialized system would be reset)")
-    ctx.check(bool(inits), "C13.b", "%s:New-arm-initializes" % fk, "%s:%d" % (m.file, m.line), "", "the New arm does not initialize the system")
+    if require_init:
+        ctx.check(bool(inits), "C13.b", "%s:New-arm-initializes" % fk, "%s:%d" % (m.file, m.line), "", "the New arm does not initialize the system")
     # write-backs: assignments to *self
     wbs = []
     for b, i, s in m.iter_stmts():
@@ -126,6 +133,14 @@ def check(ctx):
     ctx.floor("C13.b", len(rwc), 2, "run_with_cleanup functions")
     for m in rwc:
         _check_rwc(ctx, prog, m)
+    # any other method of the callback-system enums that moves the state out of `self` owes the same write-back
+    for m in prog.bodies:
+        if m.kind != "assoc_fn" or m.raw.get("impl_trait") or m in rwc or not m.local_ty(1).startswith("&mut "):
+            continue
+        if not re.sub(r"<.*$", "", m.raw.get("impl_self", "")).endswith(("::CallbackSystem", "::RawCallbackSystem")):
+            continue
+        if any(fr and lib.tail(mir.fn_name(fr), 2) in ("mem::take", "mem::replace") and lib.originates_from_arg(m, t["args"][0], 1) for b, t, fr in m.iter_calls()):
+            _check_rwc(ctx, prog, m, require_init=False)
 
     # ---- C13.c one state per registration ----
     try:
